@@ -58,7 +58,8 @@ theorem hit_ignores_body (P : Params R) (env : Env) (h : Hdr) (arg : Option Expr
 
 /-- **miss**: caching enabled and nothing under the key: the body runs (in the section's scope, from the state in
     which the call was recorded), what is delivered *and stored under the key* is exactly the value of the
-    uncached section at that moment, and the ghost event `created` records value, callable and scope. -/
+    uncached section at that moment, and the ghost event `created` records value, callable, section (header and body),
+    scope, render context and the store / flags / memos the creation function started from. -/
 theorem miss_creates_uncached_output (P : Params R) (env : Env) (h : Hdr) (arg : Option Expr) (site : Bool)
     (body rest : Items) (st : St R) (hc : h.cached = true) (hen : st.enabled P.tid = true)
     (hs : st.store (backendKey P st h (scope P h env arg)) = none) :
@@ -67,7 +68,8 @@ theorem miss_creates_uncached_output (P : Params R) (env : Env) (h : Hdr) (arg :
       let K := backendKey P st h env'
       let st0 := (afterCall P st h env').emit (.enter P.tid (fname h) K .miss)
       let v := sectionValue P env' h body st0
-      let r := run P env rest (((run P env' body st0).2.put K v).emit (.created P.tid (fname h) K v env'))
+      let r := run P env rest (((run P env' body st0).2.put K v).emit
+        (.created P.tid (fname h) K v ⟨h, body, env', P.ctx, st0.snap⟩))
       (deliver h site v ++ r.1, r.2) :=
   run_inv_miss P env h arg site body rest st hc hen hs
 
@@ -112,6 +114,34 @@ theorem body_runs_iff_missing (w : World R) (hist : List Op) :
 theorem replays_creation_output (w : World R) (hist : List Op) :
     traceAll w evReplay (runHist w hist).trace = true :=
   (runHist_sync w hist).rep
+
+/-- a render's output and the store / flags / memos it leaves depend on the store / flags / memos it starts from only
+    (not on the trace): the snapshot recorded with a creation determines the uncached output "at that moment" -/
+theorem output_depends_on_snapshot_only (P : Params R) (its : Items) (env : Env) (a b : St R)
+    (h : a.store = b.store ∧ a.enabled = b.enabled ∧ a.regions = b.regions) :
+    (run P env its a).1 = (run P env its b).1 ∧ (run P env its a).2.snap = (run P env its b).2.snap := by
+  have := run_snap P its env a b ⟨h.1, h.2.1, h.2.2⟩
+  exact ⟨this.1, by simp [St.snap, this.2.store, this.2.enabled, this.2.regions]⟩
+
+example : (St.init exW).store = (St.init exW).snap.toSt.store ∧ (St.init exW).enabled = (St.init exW).snap.toSt.enabled ∧
+    (St.init exW).regions = (St.init exW).snap.toSt.regions := ⟨rfl, rfl, rfl⟩
+
+/-- **replays_creation_output_trace.**  For every world and every history, at every hit in the trace: the value served
+    under key `K` is the value of the entry the replayed specification state holds under `K`; that entry was put by the
+    LAST `created` or `set` event on `K` not followed by an invalidation of `K`; and when it was a `created` event with
+    record `c`, the value equals `sectionValue` – the output of the **uncached** section `c.h` with body `c.body` through
+    its filter – evaluated in the scope `c.env` and render context `c.ctx` of that creation, from the store / flags /
+    memos `c.pre` in force when the back end called the creation function, for the template that created it
+    (see `evCreation` in `Cache/Spec.lean`).  Renders in other contexts between the creation and the hit do not matter. -/
+theorem replays_creation_output_trace (w : World R) (hist : List Op) :
+    traceAllP w (evCreation w) (runHist w hist).trace :=
+  (runFrom_prov w hist _ (prov_init w)).chk
+
+/-- every entry of the replayed specification store that a creation function put holds the uncached output recorded
+    with it – after every history -/
+theorem entries_hold_creation_output (w : World R) (hist : List Op) :
+    ProvOK w (replay w (runHist w hist).trace) :=
+  (runFrom_prov w hist _ (prov_init w)).prov
 
 /-- the model's store *is* the replayed specification store, and `cache_enabled` the replayed flags, after every history -/
 theorem store_is_replayed_spec (w : World R) (hist : List Op) :
@@ -274,14 +304,39 @@ OPEN (F17.1) – every `_def_regions` entry is Template ⊕ page ⊕ section arg
 theorem args_every_render (w : World R) (hist : List Op) : MemoFromRender w (runHist w hist)
 
 It fails: `Cache.invalidate_def(name)` (and `invalidate_body`, `invalidate_closure`) goes through `_get_cache_kw`
-with `__M_defname` but without the section's arguments; issued before the callable's first render it creates the
-entry from the Template's `cache_args` alone, and every later render of the section is then handed that entry.
+with `__M_defname` but without the section's arguments; issued before the callable's first trip to the back end it
+creates the entry from the Template's `cache_args` alone, and every later render of the section is then handed that
+entry.  The guard of `args_every_render_partial` is exactly "no such early invalidation".
 -/
 
-/-- **args_every_render_partial** – guard: the history contains no `invalidate_body/def/closure`. -/
+/-- **args_every_render_partial** – guard (`noEarlyInvalidation`): no `invalidate_body/def/closure` is issued for a
+    callable before that callable's first trip to the back end, i.e. while it has no `_def_regions` entry yet.  Then every
+    entry – hence, by `args_frozen`, the arguments of every `get_or_create` of every render and of every later
+    `invalidate_*` – is Template ⊕ page ⊕ section arguments of a section of that name of that template, evaluated in the
+    scope of the section's first cached render. -/
 theorem args_every_render_partial (w : World R) (hist : List Op)
-    (hg : ∀ op ∈ hist, op.isCallableInvalidation = false) : MemoFromRender w (runHist w hist) :=
-  runFrom_memo w hist hg _ (fun _ _ _ _ _ h => by simp [St.init, aGet] at h)
+    (hg : noEarlyInvalidation w (St.init w) hist = true) : MemoFromRender w (runHist w hist) :=
+  runFrom_memo_late w hist _ hg (fun _ _ _ _ _ h => by simp [St.init, aGet] at h)
+
+/-- the guard admits invalidations after the first render (and everything else) … -/
+example : noEarlyInvalidation exWF (St.init exWF)
+    [.render 0 (ctx "1"), .invalidateDef 0 "f".toList, .render 0 (ctx "2"), .invalidate 0 "k".toList [],
+     .set 0 "k".toList "v".toList [], .invalidateDef 0 "f".toList, .setEnabled 0 false] = true := by decide +kernel
+
+/-- … and rejects exactly the early one -/
+example : noEarlyInvalidation exWF (St.init exWF) [.invalidateDef 0 "f".toList, .render 0 (ctx "1")] = false := by
+  decide +kernel
+
+/-- a history without any `invalidate_body/def/closure` satisfies the guard -/
+theorem no_callable_invalidation_is_not_early (w : World R) (hist : List Op) (st : St R)
+    (hg : ∀ op ∈ hist, op.isCallableInvalidation = false) : noEarlyInvalidation w st hist = true := by
+  induction hist generalizing st with
+  | nil => rfl
+  | cons op ops ih =>
+    simp only [noEarlyInvalidation, Bool.and_eq_true]
+    refine ⟨?_, ih _ (fun o ho => hg o (by simp [ho]))⟩
+    have := hg op (by simp)
+    cases op <;> simp [Op.isCallableInvalidation] at this <;> simp [Op.invalidatedCallable]
 
 example : ∀ op ∈ [Op.render 0 (ctx "1"), .invalidate 0 "k".toList [], .set 0 "k".toList "v".toList [], .get 0 "k".toList [],
     .setEnabled 0 false], op.isCallableInvalidation = false := by decide
